@@ -7,8 +7,12 @@ from gsim.ref import asmjson as AJ
 from gsim.ref import evm
 
 
-def run_child(op):
-    return procs.run_in_child(pipe.run_op, op, **pipe.child_limits(op))
+def run_child(op, fork=None):
+    """Run one op.  Ops with a crash point need a real process boundary; others run in-process between
+    two state restores unless GSIM_FORK=1 (see procs.run_inproc)."""
+    if op.get("crash_at") is not None:
+        fork = True
+    return procs.run_sut(pipe.run_op, op, fork=fork, **pipe.child_limits(op))
 
 
 def bl_op(block_list, argv_flags, name="b", style=0, **extra):
